@@ -13,10 +13,10 @@
   * `dr_rminus`, `dr_rminus_squarednorm` unfold to `dr_expinv e`, `eᵀ·dr_expinv e`.
   * Taylor-branch truncation bounds for the `dr_expinv` coefficient (`SO3.S1invA`, `SE2.drExpinvA`)
     and the induced entrywise bounds.
-  * SO3, SE2: `dr_exp a = Σ_k (−1)^k ad(a)^k/(k+1)!` (HasSum, closed branch); SO3 also
+  * SO3, SE2, SE3: `dr_exp a = Σ_k (−1)^k ad(a)^k/(k+1)!` (HasSum, closed branch); SO3 also
     `dr_exp a = ∫₀¹ Ad(exp(−s a)) ds` and `d/dt (t·dr_exp(t a)) = Ad(exp(−t a))`.
-  Not proved here (kept as `…_statement`): the SE3/Galilei/SE_K_3 analogues of the series
-  characterisation (the `calculate_q`/`calculate_r` blocks), and the truncation bounds for
+  Not proved here (kept as `…_statement`): the Galilei analogue of the series
+  characterisation (the `calculate_r`/`S2` blocks), and the truncation bounds for
   `dr_exp` itself (they follow from the `cos_2`/`sin_3` bounds of C02).
 -/
 import SmoothProofs.C04SO3
@@ -29,6 +29,7 @@ import SmoothProofs.C04Series
 import SmoothProofs.C04SEK3
 import SmoothProofs.C04Galilei
 import SmoothProofs.C04Bundle
+import SmoothProofs.C04SeriesSE3
 import Mathlib.Analysis.Calculus.Deriv.Basic
 
 open Lin Scalar
@@ -315,15 +316,23 @@ theorem se2_drExp_eq_series (a : Vec ℝ 3) (h : Scalar.eps2 < a 2 * a 2) (j r :
 /-- non-vacuity: `a = (2, 3, 1)` -/
 example : Scalar.eps2 < (mk3 (2:ℝ) 3 1) 2 * (mk3 (2:ℝ) 3 1) 2 := se2Closed_ex.1
 
+/-- SE3, closed branch: `dr_exp a = Σ_k (−1)^k ad(a)^k/(k+1)!` entrywise, all 36 entries — in
+    particular the `calculate_q(−v, −ω)` block is the (1,2) block of the series.
+    (`ad a = [[W,V],[0,W]]` satisfies `(X²+θ²)·X²·(X²+θ²) = 0`, so the even/odd powers are affine in
+    `m` times `(−θ²)^m`; the four resulting scalar series are summed from the cos/sin series.) -/
+theorem se3_drExp_eq_series (a : Vec ℝ 6) (h : Scalar.eps2 < sqNorm (SE3.tw a)) (j r : Fin 6) :
+    HasSum (fun k : ℕ => (-1 : ℝ) ^ k / ((k + 1).factorial : ℝ)
+      * ((Matrix.of (SE3.ad a).get : Matrix (Fin 6) (Fin 6) ℝ) ^ k) j r) ((SE3.dr_exp a) j r) :=
+  C04SeriesSE3.se3_drExp_hasSum a h j r
+
 /-! ### statements not yet proved (targets of DESIGN.md §C04 kept for later rounds) -/
 
-/-- the SE3 analogue of the series characterisation (Galilei / SE_K_3 likewise); for these groups
-    `dr_exp` is tied here to the SO3 block by `dr_exp·dr_expinv = I` (any `Q`), i.e. the `Q` block
-    (`calculate_q`) itself is not yet identified with the series. -/
-def se3_drExp_series_statement : Prop :=
-  ∀ (a : Vec ℝ 6), Scalar.eps2 < sqNorm (SE3.tw a) → ∀ j r : Fin 6,
+/-- the Galilei analogue of the series characterisation (SE_K(3) follows the SE3 pattern blockwise);
+    for Galilei the `calculate_r` / `S2` blocks are tied here by `dr_exp·dr_expinv = I` only. -/
+def galilei_drExp_series_statement : Prop :=
+  ∀ (a : Vec ℝ 10), Scalar.eps2 < sqNorm (Galilei.tw a) → ∀ j r : Fin 10,
     HasSum (fun k : ℕ => (-1 : ℝ) ^ k / ((k + 1).factorial : ℝ)
-      * ((Matrix.of (SE3.ad a).get : Matrix (Fin 6) (Fin 6) ℝ) ^ k) j r) ((SE3.dr_exp a) j r)
+      * ((Matrix.of (Galilei.ad a).get : Matrix (Fin 10) (Fin 10) ℝ) ^ k) j r) ((Galilei.dr_exp a) j r)
 
 /-! ### Taylor-branch truncation bounds (series branch vs closed form) -/
 
